@@ -4,8 +4,8 @@ LEVEL = "model_checking"
 
 
 def run(ctx, args):
-    run_focus(ctx, "C13", [("MC_ProxyC13q.cfg" if ctx.quick else "MC_ProxyC13t.cfg", 1, 1)],
-              reach=("Reach_OwnConsumed",), driver_env={"VERIF_HARD": 1, "VERIF_REPS": 3 if ctx.quick else 5}, extra_drivers=[("TestVfKeepWiring", {})],
+    run_focus(ctx, "C13", [("MC_ProxyC13q.cfg" if ctx.quick else "MC_ProxyC13t.cfg", 1, 3)],
+              reach=("Reach_OwnConsumed",), driver_env={"VERIF_HARD": 1, "VERIF_REPS": 3}, extra_drivers=[("TestVfKeepWiring", {})],
               rule="Route sets of 0-%d entries in every header-line layout, first entry in {listener by address, by alias, alias without port, "
                    "right host wrong port, right port foreign host, listener of another entry, foreign hops}, keep-next-hop-route on/off, listener port 5060/5070; "
                    "entries decorated with display names, URI parameters with and without values, header parameters; plus the configuration wiring: startProxy from YAML with "
